@@ -121,7 +121,7 @@ func switchClauses(c *Ctx, pkgPath, recv, fn string) ([]caseClause, *ast.FuncDec
 
 var ruleTab = &Rule{
 	Name: "TAB/language-tables",
-	Text: "the lexer's and parser's constant tables agree with the Lua 5.3/5.4 reference and with each other: (K1) keys of lexer.keywords = the 22 reserved words, each mapped to the kind spelled that way; (K2) every setNowToken(K, \"s\") with constant arguments has tokenKinds[K] == s and every punctuation / operator kind is produced by some site; (K3) getPriority covers exactly the 21 binary operators in the reference precedence order, '..' and '^' (only) are right-associative, the unary operators are exactly not # - ~ and bind between '*' and '^'; (K4) parseStat dispatches every statement keyword, block-end set = {return, EOF, end, else, elseif, until}; (K6) parentheses are kept around exactly the expression kinds whose meaning they change (vararg, call, name, index)",
+	Text: "the lexer's and parser's constant tables agree with the Lua 5.3/5.4 reference and with each other: (K1) keys of lexer.keywords = the 22 reserved words, each mapped to the kind spelled that way; (K2) every setNowToken(K, \"s\") with constant arguments has tokenKinds[K] == s and every punctuation / operator kind is produced by some site; (K3) getPriority covers exactly the 21 binary operators in the reference precedence order, '..' and '^' (only) are right-associative, the unary operators are exactly not # - ~ and bind between '*' and '^'; (K4) parseStat dispatches every statement keyword, block-end set = {return, EOF, end, else, elseif, until}; (K7) parseRetExps ends an empty return at every block-end token of isReturnOrBlockEnd (other than return itself) and at ';'; (K6) parentheses are kept around exactly the expression kinds whose meaning they change (vararg, call, name, index)",
 	Run: func(c *Ctx) []Ob {
 		var obs []Ob
 		sp, names, err := tokenSpellings(c)
@@ -413,6 +413,36 @@ var ruleTab = &Rule{
 				v, note = VIOLATION, fmt.Sprintf("block-end token set is %v, reference %v", sortedKeys(have), want)
 			}
 			obs = append(obs, Ob{Key: "TAB/K4:block-end-set", Site: site(fd4), Verdict: v, Note: note})
+		}
+
+		// K7 empty return: every token that can end a block may directly follow `return`
+		reClauses, fd7, err := switchClauses(c, parserPkg, "Parser", "parseRetExps")
+		if err != nil || beClauses == nil {
+			obs = append(obs, Ob{Key: "TAB/K7:slots", Verdict: UNDECIDED, Note: "slot unresolved: Parser.parseRetExps / isReturnOrBlockEnd"})
+		} else {
+			have := map[string]bool{}
+			for _, cl := range reClauses {
+				for _, k := range cl.kinds {
+					have[sp[k]] = true
+				}
+			}
+			var want []string
+			for _, cl := range beClauses {
+				for _, k := range cl.kinds {
+					if sp[k] != "return" {
+						want = append(want, sp[k])
+					}
+				}
+			}
+			want = append(want, ";")
+			sort.Strings(want)
+			for _, w := range want {
+				v, note := OK, ""
+				if !have[w] {
+					v, note = VIOLATION, fmt.Sprintf("parseRetExps does not treat %q as the end of an empty `return`: `return` directly followed by it (a token isReturnOrBlockEnd accepts as block end) is parsed as an expression list and rejected", w)
+				}
+				obs = append(obs, Ob{Key: "TAB/K7:empty-return:" + w, Site: site(fd7), Verdict: v, Note: note})
+			}
 		}
 
 		// K6 kept parentheses
